@@ -231,8 +231,9 @@ pub fn catalogue() -> Vec<Prog> {
     ]));
     v.push(p("io", false, b"Az\x80\xff", vec![
         plain("getc"), plain("out"), plain("in"), pc_lab("lea", 0, "msg"), plain("puts"), pc_lab("ld", 0, "num"), plain("putn"),
-        plain("reg"), plain("getc"), plain("out"), pc_lab("lea", 0, "pk"), plain("putsp"), halt(),
+        plain("reg"), plain("getc"), plain("out"), pc_lab("lea", 0, "pk"), plain("putsp"), pc_lab("lea", 0, "pk2"), plain("putsp"), halt(),
         stringz("Hi!\n").lab("msg"), fill(-1234).lab("num"), fill(0x6261).lab("pk"), fill(0x0063), fill(0),
+        fill(0x6867).lab("pk2"), fill(0x0069), fill(0x6b6a), fill(0),
     ]));
     v.push(p("eofin", false, b"A", vec![plain("getc"), plain("getc"), halt()]));
     v.push(p("badtrap", false, b"", vec![add_i(0, 0, 1), trap(0x30), halt()]));
